@@ -259,6 +259,12 @@ func effectiveCores() float64 {
 	return all / one
 }
 
+// crashScope: for checks that claim a slice of their property, where the innermost frame of
+// d2 must be for a crash of the process to count (C01: the parser; C07: the import
+// machinery). Crashes of the compiler proper on sampled programs are the input-space half of
+// C07, which nothing here decides.
+var crashScope = map[string][]string{"C01": {"/d2parser/", "/d2ast/"}, "C07": {"/d2ir/import.go"}}
+
 // crashOracle names, per property, the "never crashes" oracle.
 var crashOracle = map[string]string{"C01": "O01.1", "C08": "O08.1", "C25": "O25.1", "C44": "O44.3", "C45": "O45.4", "C46": "O46.3", "C48": "O48"}
 
@@ -338,6 +344,27 @@ func classifyCrash(log, prop string) *harness.Failure {
 	if len(block) > 3000 {
 		block = block[:3000]
 	}
+	if scope := crashScope[prop]; len(scope) > 0 {
+		// A check that claims a slice of its property counts a crash only when the
+		// innermost frame of d2 is in the code of that slice (the file:line follows the
+		// function line).
+		in := false
+		lines := strings.Split(block, "\n")
+		for i, l := range lines {
+			if strings.HasPrefix(strings.TrimSpace(l), "oss.terrastruct.com/d2/") && i+1 < len(lines) {
+				for _, sc := range scope {
+					if strings.Contains(lines[i+1], sc) {
+						in = true
+					}
+				}
+				break
+			}
+		}
+		if !in {
+			return &harness.Failure{RunIndex: idx, Seed: seed, Result: harness.Result{Property: "", Oracle: "outside-slice",
+				Msg: "a crash of d2 outside the code this check's slice covers:\n" + block}}
+		}
+	}
 	return &harness.Failure{RunIndex: idx, Seed: seed, Result: harness.Result{Property: prop, Oracle: crashOracle[prop],
 		Msg: "the system under test crashed the process:\n" + block}}
 }
@@ -348,6 +375,8 @@ type workerJob struct {
 	out  string
 	log  string
 	wall time.Duration
+
+	restarts int
 }
 
 func runWorker(bin string, j workerJob) (*harness.Summary, error) {
@@ -377,6 +406,25 @@ func runWorker(bin string, j workerJob) (*harness.Summary, error) {
 	if rerr != nil {
 		logb, _ := os.ReadFile(j.log)
 		if f := classifyCrash(string(logb), j.prop); f != nil {
+			if f.Result.Oracle == "outside-slice" {
+				// Not this check's business, but the worker is gone: say so, and carry on
+				// behind the run that killed it.
+				fmt.Printf("NOTE worker died in run %d: %s\n", f.RunIndex, firstLines(f.Result.Msg, 14))
+				if j.restarts < 8 {
+					j2 := j
+					j2.restarts++
+					j2.env = append(append([]string{}, j.env...), "VSIM_START_AFTER="+strconv.Itoa(f.RunIndex))
+					s2, err := runWorker(bin, j2)
+					if s2 != nil {
+						if s2.Probes == nil {
+							s2.Probes = map[string]int{}
+						}
+						s2.Probes["worker_restarted_after_a_crash_outside_the_slice"]++
+					}
+					return s2, err
+				}
+				return &harness.Summary{Runs: 1, Evals: 1, Crashed: true}, nil
+			}
 			// The system under test crashed the process: that is a result, not a
 			// harness failure.
 			return &harness.Summary{Runs: 1, Evals: 1, Failures: []harness.Failure{*f}, Crashed: true}, nil
